@@ -147,6 +147,12 @@ pub fn sanity(r: &ExecResult) -> Vec<Finding> {
             msg: "a timed wait expired (a pool join inside stop()/drop, or a channel operation with a timeout, gave up instead of completing)".into(),
         });
     }
+    if notes(r, "stale_object").next().is_some() {
+        f.push(Finding {
+            sig: "process-wide-state".into(),
+            msg: "a thread-pool handle created by a store of an EARLIER execution was used in this one: the code under test keeps process-wide state shared between store instances (the handle is inert here; in a real process it would be live)".into(),
+        });
+    }
     for rec in &r.log {
         if let Ev::TaskPanic { msg } = &rec.ev {
             f.push(Finding {
